@@ -124,7 +124,7 @@ func clip(s string) string {
 var _ = pbt.Register(pbt.Spec[Case]{
 	Property: "C05", Name: "build-conformance",
 	Rule:     "same build programs and arenas as C04 (incl. dirty 0xFF spare capacity and the exact-capacity arena that forces double-far pointers); oracle on Marshal() bytes: independent unframer consumes exactly the output, segment table = segments, word alignment, zero header padding; independent STRICT decoder (every pointer in bounds, single-far pad is a near pointer, double-far pad = far + zero-offset tag, composite word count = n*(d+p), zero list padding) reconstructs exactly the model tree; all reached objects and landing pads pairwise disjoint; MarshalPacked decodable by the independent unpacker. Non-trivial: >=2 segments and at least one far/double-far pointer.",
-	Quick:    15000, Thorough: 100000,
+	Quick:    15000, Thorough: 250000,
 	Gen: func(t *rapid.T) Case { return Case{Prog: build.GenProgram(t, 40)} },
 	Run: run,
 })
